@@ -41,15 +41,21 @@ CLAIMED = {
     "C17": {
         "technique": "path-sensitive nullness / typestate abstract interpretation over clang CFGs: PNC_check_id "
                      "contract, use-after-check in all ~900 callers, id-table pairing and scan-range rules, "
-                     "queue-emptied-before-free typestate in ncmpio_close",
-        "text": "Decides four structural clauses: (1) PNC_check_id returns NC_NOERR only with *pncp loaded from a slot "
+                     "queue-emptied-before-free typestate in ncmpio_close; interprocedural heap-ownership analysis "
+                     "(symbolic pointer values, per-return-class summaries of what each callee releases, captures, "
+                     "returns or hands out)",
+        "text": "Decides five structural clauses: (1) PNC_check_id returns NC_NOERR only with *pncp loaded from a slot "
                 "tested non-NULL; (2) each of the ~900 callers uses the PNC pointer only after testing the result; "
                 "(3) the id table: NC_ENFILE test dominates a scan over the whole table, slot store/counter/id "
                 "hand-out are paired, deletion clears and decrements; (4) ncmpio_close tests each request queue "
-                "empty or cancels it before freeing the file object and returns non-zero when requests were pending. "
-                "It does not decide absence of leaks in general (resource pairing on all early returns is not "
-                "built), nor isolation between files.",
-        "note": "Single-threaded build; callee behaviour of ncmpio_cancel/ncmpio_free_NC is not re-derived here.",
+                "empty or cancels it before freeing the file object and returns non-zero when requests were pending; "
+                "(5) in every function reachable from the public API, each heap object allocated there (directly, or "
+                "returned / handed out by a callee) is released, returned or stored in a longer-lived structure on "
+                "every explored path, failure paths included. Not decided: MPI objects (datatypes, communicators, "
+                "info) as resources, leaks that need an allocation or MPI failure, the 16 functions over the state "
+                "budget (frozen list; treated as capturing), isolation between files.",
+        "note": "Single-threaded build. R3.leak assumes allocation and MPI calls succeed; four reports are discharged by "
+                "reasoned predicates whose side conditions are re-tested (DESIGN 10.5a). Found and fixed: F-C17-2..4.",
         "design_ref": "DESIGN.md section 3 / C17, rule R3 (clauses 1, 4, 5)",
     },
     "C05": {
